@@ -445,7 +445,7 @@ def finish(prop, tier, seed, level, rule, results, t0, assumptions, min_events=N
     replay_dir = os.environ.get("VERIF_REPLAY_DIR", os.path.join(VERIF, "replays"))
     os.makedirs(replay_dir, exist_ok=True)
     for key, vs in sorted(bykey.items()):
-        if key.startswith("harness:"):
+        if key.startswith("harness:") or key.startswith("harness-"):
             # the harness could not set up or observe what it needed (environment): never a verdict on the code
             inconclusive.append("harness failure %s (%d time(s)): %s" % (key, len(vs), json.dumps(vs[0].get("detail"), default=str)[:300]))
             continue
